@@ -12,7 +12,7 @@ import shutil
 import time
 from concurrent.futures import ThreadPoolExecutor
 
-from .core import (ANALYZER_BIN, ANALYZER_TARGET, CACHE, CLI_TARGET, DRIVER_BIN, DRIVER_TARGET, NCPU, REPO, VERIF,
+from .core import (ANALYZER_BIN, ANALYZER_TARGET, CACHE, CLI_TARGET, DRIVER_BIN, DRIVER_TARGET, NCPU, REPO, REPO_TAG, VERIF,
                    BuildFailed, Lock, log, run, tree_hash)
 
 TREES = os.path.join(CACHE, "trees")
@@ -66,11 +66,16 @@ class Artifacts:
         """Path of the eqlog CLI built from the current working tree."""
         marker = os.path.join(CLI_TARGET, "built_for_hash")
         binp = os.path.join(CLI_TARGET, "debug", "eqlog")
-        with Lock():
+        with Lock("cli%s.lock" % REPO_TAG):
             if os.path.exists(marker) and os.path.exists(binp) and open(marker).read() == self.hash:
                 return binp
             t0 = time.time()
-            if not os.path.exists(CLI_TARGET) and os.path.isdir(os.path.join(REPO, "target", "debug")):
+            main_target = os.path.join(CACHE, "cli-target")
+            if not os.path.exists(CLI_TARGET) and REPO_TAG and os.path.isdir(main_target):
+                # scratch copy of the repository: reuse the dependency builds of the main target directory
+                log("[artifacts] seeding %s from %s" % (CLI_TARGET, main_target))
+                run(["cp", "-a", main_target, CLI_TARGET])
+            elif not os.path.exists(CLI_TARGET) and os.path.isdir(os.path.join(REPO, "target", "debug")):
                 # seed from the test suite's target dir when present: saves the 7-minute cold build
                 log("[artifacts] seeding CLI target dir from %s/target" % REPO)
                 run(["cp", "-a", os.path.join(REPO, "target"), CLI_TARGET])
@@ -97,7 +102,25 @@ class Artifacts:
         sets["shipped"] = sorted(shipped)
         corpus_root = os.path.join(VERIF, "corpus")
         sets["corpus"] = sorted((f, os.path.join(corpus_root, f)) for f in os.listdir(corpus_root) if f.endswith(".eql"))
+        # thorough tier: the compiler's own theory, and the bounded-exhaustive family of flat-shaped rules
+        sets["selfhost"] = [("eqlog.eql", os.path.join(REPO, "eqlog-eqlog", "src", "eqlog.eql"))]
         return sets
+
+    def enum_set(self, seed):
+        """Writes the enumerated rule batches (deterministic; `seed` only matters if a sample has to be taken)."""
+        from . import enumerator
+        d = os.path.join(self.dir, "enum_src")
+        info_path = os.path.join(d, "info.json")
+        if not os.path.exists(info_path):
+            small, large, info = enumerator.select(seed, max_small=100000, sample_large=100000)
+            rules = small + large
+            paths = enumerator.write_batches(d, rules)
+            info["rules"] = len(rules)
+            info["batches"] = len(paths)
+            with open(info_path, "w") as f:
+                json.dump(info, f)
+        files = sorted(f for f in os.listdir(d) if f.endswith(".eql"))
+        return [(f, os.path.join(d, f)) for f in files], json.load(open(info_path))
 
     def _emit_one(self, cli, setname, rel, src, outroot):
         """Run the CLI on one .eql file in both build modes. Returns a status dict."""
@@ -108,14 +131,18 @@ class Artifacts:
         shutil.copyfile(src, os.path.join(ind, rel))
         st = {"set": setname, "rel": rel, "src": src, "job": job}
         t0 = time.time()
-        p = run([cli, ind, os.path.join(job, "module")], timeout=3600)
-        st["module_rc"] = p.returncode
-        st["module_err"] = p.stderr[-2000:]
-        p = run([cli, ind, os.path.join(job, "cmodule"), "--build-type", "component", "--component-out-dir",
-                 os.path.join(job, "comp"), "--rustc-path", "/bin/true", "--runtime-rlib-path", "/nonexistent.rlib"],
-                timeout=3600)
-        st["component_rc"] = p.returncode
-        st["component_err"] = p.stderr[-2000:]
+        cmd_m = [cli, ind, os.path.join(job, "module")]
+        cmd_c = [cli, ind, os.path.join(job, "cmodule"), "--build-type", "component", "--component-out-dir",
+                 os.path.join(job, "comp"), "--rustc-path", "/bin/true", "--runtime-rlib-path", "/nonexistent.rlib"]
+        with ThreadPoolExecutor(max_workers=2) as ex2:
+            fm = ex2.submit(run, cmd_m, None, None, 7200)
+            fc = ex2.submit(run, cmd_c, None, None, 7200)
+            p = fm.result()
+            st["module_rc"] = p.returncode
+            st["module_err"] = p.stderr[-2000:]
+            p = fc.result()
+            st["component_rc"] = p.returncode
+            st["component_err"] = p.stderr[-2000:]
         st["wall_s"] = round(time.time() - t0, 2)
         st["module_files"] = sorted(glob.glob(os.path.join(job, "module", "**", "*.rs"), recursive=True))
         st["cmodule_files"] = sorted(glob.glob(os.path.join(job, "cmodule", "**", "*.rs"), recursive=True))
@@ -128,9 +155,11 @@ class Artifacts:
         todo = [s for s in sets if not self._done("emit_" + s)]
         if todo:
             cli = self.cli()
-            with Lock("emit.lock"):
+            with Lock("emit-%s.lock" % self.hash):
                 todo = [s for s in sets if not self._done("emit_" + s)]
                 all_sets = self.theory_sets()
+                if "enum" in todo:
+                    all_sets["enum"], _info = self.enum_set(int(os.environ.get("VERIF_SEED", "0") or 0))
                 for s in todo:
                     outroot = os.path.join(self.dir, "emit")
                     shutil.rmtree(os.path.join(outroot, s), ignore_errors=True)
@@ -183,7 +212,7 @@ class Artifacts:
         path = os.path.join(self.dir, "mir", crate + ".json")
         if not self._done(key):
             self.ensure_driver()
-            with Lock("mir.lock"):
+            with Lock("mir%s.lock" % REPO_TAG):
                 if not self._done(key):
                     self._run_driver(crate, path)
                     self._mark(key)
@@ -195,7 +224,10 @@ class Artifacts:
     def _run_driver(self, crate, out_path):
         os.makedirs(os.path.dirname(out_path), exist_ok=True)
         cwd = {"eqlog_runtime": "eqlog-runtime", "eqlog": "eqlog"}[crate]
-        tdir = os.path.join(CACHE, "mir-target-" + crate)
+        tdir = os.path.join(CACHE, "mir-target-" + crate + REPO_TAG)
+        main_t = os.path.join(CACHE, "mir-target-" + crate)
+        if REPO_TAG and not os.path.exists(tdir) and os.path.isdir(main_t):
+            run(["cp", "-a", main_t, tdir])
         if crate == "eqlog":
             # the compiler crate needs eqlog-eqlog/prebuilt/eqlog.rs, which the CLI build (feature `rebuild`) keeps current
             self.cli()
